@@ -182,7 +182,7 @@ Fixpoint clone_stamps (st : state) (l : list addr) : state * list addr :=
 (* prepareCorrectionOptions; the state is returned also on refusal: what json.Unmarshal wrote stays written.
    copy_head = false is the code as it stands: o.Stamps = append(o.Stamps, o.Head.Stamps...) - the POINTERS;
    copy_head = true is the code after fixes/C16-copy-header-stamps.diff: copies of the objects. *)
-Definition prepare (copy_head : bool) (opts : list opt) (st : state) : state * result options :=
+Definition resolve (copy_head : bool) (opts : list opt) (st : state) : state * option options :=
   let o := fold_left apply_opt opts no_options in
   let '(st, o1) := match o_head o with
             | Some (s :: l) =>
@@ -192,10 +192,15 @@ Definition prepare (copy_head : bool) (opts : list opt) (st : state) : state * r
             | _ => (st, o)
             end in
   match o_data o1 with
-  | BadData => (st, Err BadOptionsData)
-  | NoData => (st, if is_empty (o_type o1) then Err MissingType else Ok o1)
-  | Data d => let (st', o2) := apply_data st o1 d in
-              (st', if is_empty (o_type o2) then Err MissingType else Ok o2)
+  | BadData => (st, None)                      (* "failed to unmarshal correction options" *)
+  | NoData => (st, Some o1)
+  | Data d => let (st', o2) := apply_data st o1 d in (st', Some o2)
+  end.
+
+Definition prepare (copy_head : bool) (opts : list opt) (st : state) : state * result options :=
+  match resolve copy_head opts st with
+  | (st', None) => (st', Err BadOptionsData)
+  | (st', Some o) => (st', if is_empty (o_type o) then Err MissingType else Ok o)
   end.
 
 (* validatePrecedingData, the stamps loop: first stamp in o.Stamps with the provider *)
@@ -263,6 +268,13 @@ Section Correct.
   Definition replicate (today : bytes) (inv : invoice) : invoice :=
     mkInv [] (i_type inv) (i_series inv) [] today None None (i_preceding inv) (i_taxes inv) (i_body inv).
 
+  (* what of a document the statement of C16 speaks about (tax totals only as present / absent) *)
+  Definition ref_header (r : docref) :=
+    (r_uuid r, r_type r, r_issue r, r_series r, r_code r, r_reason r, r_stamps r,
+     match r_tax r with Some _ => true | None => false end, r_ext r).
+  Definition header (i : invoice) :=
+    (i_uuid i, i_type i, i_series i, i_code i, i_issue i, i_value_date i, i_op_date i, map ref_header (i_preceding i)).
+
   (* ---- envelopes ---- *)
   Variable D : Type.
   Variable digest : invoice -> D.            (* Envelope.Digest: C08 *)
@@ -324,5 +336,5 @@ Arguments i_taxes {T B}. Arguments i_body {T B}.
 Arguments mkEnv {T B D}. Arguments e_uuid {T B D}. Arguments e_stamps {T B D}. Arguments e_sigs {T B D}.
 Arguments e_dig {T B D}. Arguments e_doc {T B D}.
 Arguments correct_with {T B}. Arguments correct {T B}. Arguments replicate {T B}. Arguments clone {T B}.
-Arguments clone_refs {T}. Arguments set_uuid {T B}. Arguments envelop {T B} calc {D}. Arguments env_correct {T B} calc {D}.
+Arguments clone_refs {T}. Arguments ref_header {T}. Arguments header {T B}. Arguments set_uuid {T B}. Arguments envelop {T B} calc {D}. Arguments env_correct {T B} calc {D}.
 Arguments env_replicate {T B} calc {D}.
